@@ -43,7 +43,7 @@ WRITERS = {
     "Vsetname", "Vsetclass", "Vsetattr", "Vaddtagref", "Vinsert", "ANwriteann", "ANcreate", "ANcreatef",
 }
 # calls whose result is a handle of the same role as their first argument
-DERIVE = {"SDselect", "SDcreate", "SDgetdimid", "GRselect", "GRcreate", "GRgetlutid", "VSattach", "Vattach", "ANstart", "ANselect", "ANcreate", "ANcreatef",
+DERIVE = {"Hopen", "SDstart", "SDselect", "SDcreate", "SDgetdimid", "GRselect", "GRcreate", "GRgetlutid", "VSattach", "Vattach", "ANstart", "ANselect", "ANcreate", "ANcreatef",
           "GRstart", "SDidtoref", "GRidtoref"}
 HANDLE_DERIVE = DERIVE - {"SDidtoref", "GRidtoref"}
 SKIP_FILES = ("hrepacktst.c", "hrepack_check.c")
